@@ -74,7 +74,7 @@ pub fn gen(out: &mut Out, thorough: bool) {
         if parse_value(a).is_some() && parse_value(b).is_some() { l(format!("ueq {} {}", a, b), out); }
     }
     // random large values: shuffles must be equal, single-leaf mutations must differ
-    let m = if thorough { 20000 } else { 3000 };
+    let m = if thorough { 300000 } else { 3000 };
     for _ in 0..m {
         let v = crate::print::gen_value(&mut out.rng, 0, 4);
         let s = shuffle_deep(&mut out.rng, &v);
